@@ -287,6 +287,44 @@ def check_block_roundtrip(ctx, oid):
     R.floor(oid, n, 3, "block_roundtrip_cases")
 
 
+def check_block_crafted(ctx, oid):
+    """block_deser on crafted blocks: a declared transaction count that is one more / one less than the transactions present is
+    refused; block_header_deser returns the fields of an 80-byte header and refuses 79 / 81 bytes."""
+    R = ctx.R
+    ev = ctx.evaluator(max_depth=14)
+    BC = "bits.blockchain."
+    f_hdr, f_des, f_hd = ctx.fn(BC + "block_header"), ctx.fn(BC + "block_deser"), ctx.fn(BC + "block_header_deser")
+    hf = {"version": P("version", tm.INT), "prev_blockheaderhash": tm.sized("prev", 32), "merkle_root_hash": tm.sized("merkle", 32),
+          "ntime": P("ntime", tm.INT), "nBits": tm.sized("nbits", 4), "nNonce": P("nonce", tm.INT)}
+    hdr, err = _val(ev, f_hdr, dict(hf), "block_header")
+    if err:
+        R.check(oid, "ROUND-TRIP", f_hdr, "block_header serialises", False, "block_header: %s" % err)
+        return
+    want_h = {"version": hf["version"], "prev_blockheaderhash": tm.hexs(hf["prev_blockheaderhash"]), "merkle_root_hash": tm.hexs(hf["merkle_root_hash"]),
+              "nTime": hf["ntime"], "nBits": tm.hexs(hf["nBits"]), "nNonce": hf["nNonce"]}
+    k, v = rules.outcome(ev.run(f_hd, {f_hd.params()[0]: hdr}, use_defaults=True))
+    okh = k == "return" and isinstance(v, dict) and all(key in v and tm.veq(v[key], w) for key, w in want_h.items())
+    R.check(oid, "ROUND-TRIP", f_hd, "block_header_deser(block_header(fields)) returns the six fields (widths, order, endianness)", okh,
+            "block_header_deser(block_header(fields)) is %s %s" % (k, tm.show(v)[:200]))
+    for L in (0, 79, 81, 160):
+        k, v = rules.outcome(ev.run(f_hd, {f_hd.params()[0]: tm.sized("header", L) if L else b""}, use_defaults=True))
+        R.check(oid, "DECISION-TABLE", f_hd, "a header of %d bytes is refused" % L, k == "raise", "block_header_deser accepts a %d-byte header" % L, example="a truncated header")
+    raws = []
+    for i, (ins, outs, wit) in enumerate([([0], [22], None), ([4], [22], [[32]]), ([1], [1], None)]):
+        raw, f, e = build_tx(ctx, ev, ins, outs, wit)
+        if e:
+            R.check(oid, "ROUND-TRIP", f_des, "transactions serialise", False, "tx(): %s" % e)
+            return
+        ren = lambda t, i=i: (T("sized", ("tx%d_%s" % (i, t.args[0]), t.args[1]), tm.BYTES) if isinstance(t, T) and t.op == "sized" else
+                              (P("tx%d_%s" % (i, t.args[0]), t.ty) if isinstance(t, T) and t.op == "param" else None))
+        raws.append(tm.subst(raw, ren))
+    for declared, present in ((4, 3), (2, 3), (1, 2), (3, 2), (0, 1), (1, 0)):
+        blk = tm.cat([hdr, bytes([declared])] + raws[:present])
+        k, v = rules.outcome(ev.run(f_des, {f_des.params()[0]: blk}, use_defaults=True))
+        R.check(oid, "DECISION-TABLE", f_des, "a block declaring %d transactions but carrying %d is refused" % (declared, present), k == "raise",
+                "block_deser accepts a block that declares %d transactions and carries %d (%s)" % (declared, present, k), example="a block with a wrong transaction count")
+
+
 # ----------------------------------------------------------------------------- P2P payload codecs
 def check_codecs_roundtrip(ctx, oid):
     """parse_X_payload(X_payload(values)) returns the values, for version / ping / getheaders / inv / addr."""
